@@ -282,6 +282,7 @@ def extract_fn(repo, spec):
     if "".join(back) != body:
         raise vf.Undecided("%s: body identity check failed" % spec["name"])
     line_in_repo = text.count("\n", 0, start) + 1
+    mfn2 = re.search(r"\bfn\s+(\w+)", sig2)
     hdr = re.sub(r"\s+", " ", header) if spec.get("keep_trait") else inherent_header(header)
     if spec.get("header"):
         # stated rewrite of a trait impl header whose generics cannot stay on an inherent impl
@@ -290,7 +291,9 @@ def extract_fn(repo, spec):
         if sig2.count(a_) != 1:
             raise vf.Undecided("%s: signature rewrite anchor %r not found once" % (spec["name"], a_))
         sig2 = sig2.replace(a_, b_)
-    return {"name": spec["name"], "header": hdr, "impl_items": spec.get("impl_items", ""), "orig_header": re.sub(r"\s+", " ", header),
+    mfn3 = re.search(r"\bfn\s+(\w+)", sig2)
+    emit_name = spec["name"].split("::")[0].split("(")[0] + "::" + (mfn3.group(1) if mfn3 else "?")
+    return {"name": spec["name"], "emit_name": emit_name, "header": hdr, "impl_items": spec.get("impl_items", ""), "orig_header": re.sub(r"\s+", " ", header),
             "sig": sig2, "spec": spec.get("spec", ""), "body": body2, "orig_body": body,
             "trusted": spec.get("trusted", False), "keep_trait": spec.get("keep_trait", False), "omit_body": spec.get("omit_body", False), "props": spec.get("props", []),
             "file": spec["file"], "line": line_in_repo, "sha": vf.sha(body), "loops": len(loops), "closures": nclos,
@@ -513,7 +516,7 @@ def run_for(prop, tier, only=None):
         f = extracted.get(s["name"])
         if f is None or f.get("demoted"):
             continue
-        fb = per_fn.get(s["name"])
+        fb = per_fn.get(f.get("emit_name") or s["name"]) or per_fn.get(s["name"])
         row = {"function": s["name"], "repo_location": "%s:%d" % (f["file"], f["line"]), "body_sha256_16": f["sha"],
                "loops_annotated": f["loops"], "impl_header": f["orig_header"]}
         ferrs = [e for e in errors if e["fn"] is f]
